@@ -591,16 +591,19 @@ class Evaluator:
 
     def comprehension(self, e, st):
         """opaque, but remembers what it reads (free names and attribute chains)"""
-        bound = set()
+        bound = []
         for g in e.generators:
-            for x in ast.walk(g.target):
-                if isinstance(x, ast.Name):
-                    bound.add(x.id)
+            for x in sorted((x for x in ast.walk(g.target) if isinstance(x, ast.Name)), key=lambda x: (x.lineno, x.col_offset)):
+                if x.id not in bound:
+                    bound.append(x.id)
         reads = []
         seen = set()
         sub = st.copy()
-        for b in bound:
-            sub.env[b] = Rat.of(mk_atom('fn', 'compvar', (b,)))
+        depth = getattr(self, '_comp_depth', 0)
+        self._comp_depth = depth + 1
+        for i, b in enumerate(bound):
+            # bound variables are named by position, not by identifier (alpha-equivalence of comprehensions)
+            sub.env[b] = Rat.of(mk_atom('fn', 'compvar', (f'#{depth}.{i}',)))
         parts = [g.iter for g in e.generators] + [c for g in e.generators for c in g.ifs]
         parts += [e.key, e.value] if isinstance(e, ast.DictComp) else [e.elt]
         for part in parts:
@@ -613,6 +616,7 @@ class Evaluator:
                 if k not in seen:
                     seen.add(k)
                     reads.append(x)
+        self._comp_depth = depth
         kind = {ast.ListComp: 'listcomp', ast.GeneratorExp: 'genexp', ast.SetComp: 'setcomp',
                 ast.DictComp: 'dictcomp'}[type(e)]
         return Rat.of(mk_atom('fn', kind, reads))
